@@ -741,8 +741,8 @@ def judge_cases(run: Run, W: World, cases, label='judgement'):
         itags = list(tags)
         if a['fd'] == '1':
             itags.append('F18d')
-        for op, got, what, site in (('instance of', ii, 'instance-of', 'evaluate__instance_expression'),
-                                    ('treat as', it, 'treat-as', 'evaluate__treat_expression')):
+        for op, got, mdl, what, site in (('instance of', ii, a['inst'], 'instance-of', 'evaluate__instance_expression'),
+                                         ('treat as', it, a['treat'], 'treat-as', 'evaluate__treat_expression')):
             if a['fp'] == '1':
                 # the parser rejects / corrupts this legal type (finding F18p): the model of the evaluation
                 # is not claimed here; a wrong answer is the finding, a right one is fine
@@ -751,8 +751,8 @@ def judge_cases(run: Run, W: World, cases, label='judgement'):
                     run.disagree(Disagreement(dict(case, op=op), got, None, spec, what=what,
                                               site='xpath31 parser: sequence type', tags=itags + ['F18p']))
                 continue
-            if got != a['inst'] or (spec is not None and got != spec):
-                run.disagree(Disagreement(dict(case, op=op), got, a['inst'], spec, what=what,
+            if got != mdl or (spec is not None and got != spec):
+                run.disagree(Disagreement(dict(case, op=op), got, mdl, spec, what=what,
                                           site='_xpath2_operators.' + site, tags=itags))
         if a['dom'] == '1':
             st.count('in-domain-of-match_eq_spec')
@@ -1192,7 +1192,7 @@ def body(run: Run) -> int:
                         'element / attribute / PI names without namespaces; no schema (type annotations xs:untyped / xs:untypedAtomic)',
                         'documents with exactly one element child',
                         'typed function tests whose argument types contain a typed function or map test are outside the model (string splitting), explored on the real code only']
-    run.prove(['EPV.Props.C18', 'EPV.Props.C18Tables'], ['EPV.Spec.XPathTypes', 'EPV.Gen.C18Tables'])
+    run.prove(['EPV.Props.C18', 'EPV.Props.C18Tables'], ['EPV.Spec.XPathTypes', 'EPV.Gen.C18Tables', 'EPV.Lemmas.SeqTypeSpec'])
     try:
         correspond(run)
     except DriverError as e:
